@@ -8,7 +8,6 @@ import (
 	"net"
 	"net/netip"
 	"sort"
-	"strconv"
 	"strings"
 	"sync"
 	"testing/synctest"
@@ -17,13 +16,48 @@ import (
 	"github.com/codelaboratoryltd/bng/pkg/dhcp"
 	"github.com/codelaboratoryltd/bng/pkg/ebpf"
 	"github.com/insomniacslk/dhcp/dhcpv4"
+	"github.com/insomniacslk/dhcp/iana"
 	"go.uber.org/zap"
 )
 
 const (
 	v4Lease    = 120 * time.Second
 	cleanupGap = 61 * time.Second // one period of the server's cleanup ticker plus a second
+	// offerWindow: the longest an OFFER is judged as outstanding (nobody else may be acknowledged the address):
+	// one lease time (DESIGN 5b), but never more than two minutes, so that with lease times of hours a server
+	// that reclaims unrequested offers after minutes (the DHCPv4 server documents a hold of two minutes) is not flagged
+	offerWindow = 2 * time.Minute
+	threeTicks  = 3*time.Minute + time.Second // three periods of the cleanup ticker plus a second: beyond any offer window
 )
+
+// the hardware-address lengths fresh clients cycle through (BOOTP hlen 1..16 is legal; Ethernet, AX.25, IEEE 1394,
+// EUI-64, Frame Relay) and the hardware type sent with each
+var freshHwLens = []int{6, 7, 16, 8, 3}
+
+func hwTypeFor(n int) iana.HWType {
+	switch n {
+	case 6:
+		return iana.HWTypeEthernet
+	case 7:
+		return iana.HWTypeAmateurRadioAX25
+	case 8:
+		return iana.HWTypeEUI64
+	case 16:
+		return iana.HWTypeIEEE1394
+	}
+	return iana.HWTypeFrameRelay
+}
+
+// hwAddr builds a hardware address of n octets (3 <= n <= 16) that is unique per (n, group, id).
+func hwAddr(n int, group byte, id int) net.HardwareAddr {
+	a := make(net.HardwareAddr, n)
+	a[0] = 0x02 | group<<4
+	for i := 1; i < n-2; i++ {
+		a[i] = byte(0xc0 + i)
+	}
+	a[n-2], a[n-1] = byte(id>>8), byte(id)
+	return a
+}
 
 // capConn is the net.PacketConn handed to the handler; it records what the server writes.
 type capConn struct {
@@ -67,6 +101,15 @@ type v4cfg struct {
 	resHead    int      // PoolConfig.ReservedStart: the first resHead host numbers are excluded from allocation
 	resTail    int      // PoolConfig.ReservedEnd: the last resTail host numbers are excluded from allocation
 	stateEvery int      // > 1: the lease table / pool comparison runs on every stateEvery-th message only (large pools)
+	lease      time.Duration // pool lease time (0: v4Lease); longer than offerWindow in the long-lease configurations
+	hlens      []int         // per client: length of the hardware address in octets (nil: 6, Ethernet)
+}
+
+func (c v4cfg) leaseTime() time.Duration {
+	if c.lease > 0 {
+		return c.lease
+	}
+	return v4Lease
 }
 
 type v4client struct {
@@ -78,6 +121,9 @@ type v4client struct {
 	lastAck   net.IP
 	everBound bool
 	xid       uint32
+	// rediscovered: when this client, holding an unexpired binding, sent a DISCOVER, was offered its own address and
+	// has not sent a REQUEST / RELEASE / DECLINE since (zero: no such DISCOVER pending). Coverage bookkeeping only.
+	rediscovered time.Time
 }
 
 type v4sym struct {
@@ -105,6 +151,9 @@ type v4world struct {
 	stateN  int
 	resLo   netip.Addr // last reserved head address (invalid if none)
 	resHi   netip.Addr // first reserved tail address (invalid if none)
+	lease   time.Duration
+	names   map[string]*v4client // hardware address (as the server prints it) -> client
+	byName  map[string]*v4client
 }
 
 func v4factory(cfg v4cfg) factory {
@@ -118,7 +167,7 @@ func newV4World(cfg v4cfg, r *rand.Rand) *v4world {
 		panic(err)
 	}
 	pm := dhcp.NewPoolManager(nil, lg)
-	pool, err := dhcp.NewPool(dhcp.PoolConfig{ID: 1, Name: "p", Network: cfg.cidr, Gateway: cfg.gateway, DNSServers: []string{"9.9.9.9"}, LeaseTime: v4Lease, ClientClass: dhcp.ClientClassResidential,
+	pool, err := dhcp.NewPool(dhcp.PoolConfig{ID: 1, Name: "p", Network: cfg.cidr, Gateway: cfg.gateway, DNSServers: []string{"9.9.9.9"}, LeaseTime: cfg.leaseTime(), ClientClass: dhcp.ClientClassResidential,
 		ReservedStart: cfg.resHead, ReservedEnd: cfg.resTail})
 	if err != nil {
 		panic(err)
@@ -130,7 +179,7 @@ func newV4World(cfg v4cfg, r *rand.Rand) *v4world {
 	if err != nil {
 		panic(err)
 	}
-	w := &v4world{cfg: cfg, srv: srv, pool: pool, conn: &capConn{}, rng: r}
+	w := &v4world{cfg: cfg, srv: srv, pool: pool, conn: &capConn{}, rng: r, lease: cfg.leaseTime(), names: map[string]*v4client{}, byName: map[string]*v4client{}}
 	w.prefix = netip.MustParsePrefix(cfg.cidr).Masked()
 	w.gw = netip.MustParseAddr(cfg.gateway)
 	// usable addresses, computed independently of the pool's own arithmetic
@@ -151,7 +200,18 @@ func newV4World(cfg v4cfg, r *rand.Rand) *v4world {
 			w.usable = append(w.usable, a)
 		}
 	}
-	w.m = newMon("v4", "v4/"+cfg.name, v4Lease, w.classify)
+	w.m = newMon("v4", "v4/"+cfg.name, min(w.lease, offerWindow), w.classify)
+	// an OFFER that its client never follows up must lapse: one lease time after it (the longest an offer could
+	// reasonably be honoured, DESIGN 5b) and one cleanup tick later the address has to be obtainable again
+	w.m.offerLapse, w.m.compOffer = w.lease, "dhcp.Server.reclaimStaleOffers"
+	w.m.onOfferLapse = func(c string) {
+		if cl := w.byName[c]; cl != nil {
+			w.m.count(fmt.Sprintf("v4_offers_abandoned_until_lapse_hwaddr_len_%d", len(cl.mac)), 1)
+			if len(cl.mac) != 6 {
+				w.m.count("v4_offers_abandoned_until_lapse_non_ethernet_hwaddr", 1)
+			}
+		}
+	}
 	for i := 0; i < cfg.clients; i++ {
 		w.clients = append(w.clients, w.newClient(string(rune('A'+i)), byte(i+1), cfg.transport[i%len(cfg.transport)]))
 	}
@@ -179,14 +239,26 @@ func lastAddr(p netip.Prefix) netip.Addr {
 }
 
 func (w *v4world) newClient(name string, id byte, transport string) *v4client {
-	return &v4client{name: name, mac: net.HardwareAddr{0x02, 0xc0, 0x02, 0, 0, id}, cid: []byte(fmt.Sprintf("port-%s/%d", name, id)), transport: transport}
+	mac := net.HardwareAddr{0x02, 0xc0, 0x02, 0, 0, id}
+	if i := int(id) - 1; i < len(w.cfg.hlens) && w.cfg.hlens[i] != 6 {
+		mac = hwAddr(w.cfg.hlens[i], 1, int(id))
+	}
+	c := &v4client{name: name, mac: mac, cid: []byte(fmt.Sprintf("port-%s/%d", name, id)), transport: transport}
+	w.names[mac.String()], w.byName[name] = c, c
+	return c
 }
 
 // freshClient is a client the server has never seen (pool cycling and the final drain): F1, F2, ...
 func (w *v4world) freshClient() *v4client {
 	w.fresh++
 	name := fmt.Sprintf("F%d", w.fresh)
-	return &v4client{name: name, mac: net.HardwareAddr{0x02, 0xc0, 0x02, 1, byte(w.fresh >> 8), byte(w.fresh)}, cid: []byte("port-" + name), transport: "direct"}
+	mac := net.HardwareAddr{0x02, 0xc0, 0x02, 1, byte(w.fresh >> 8), byte(w.fresh)}
+	if n := freshHwLens[w.fresh%len(freshHwLens)]; n != 6 {
+		mac = hwAddr(n, 2, w.fresh)
+	}
+	c := &v4client{name: name, mac: mac, cid: []byte("port-" + name), transport: "direct"}
+	w.names[mac.String()], w.byName[name] = c, c
+	return c
 }
 
 func (w *v4world) classify(v string) string {
@@ -309,7 +381,7 @@ func (w *v4world) freeAddr() net.IP {
 
 func (w *v4world) buildSyms() {
 	coreSyms := map[string]bool{"DISCOVER": true, "REQ-SELECT": true, "REQ-RENEW": true, "RELEASE": true, "DECLINE": true,
-		"REQ-FOREIGN": true, "REQ-GATEWAY": true, "lease+1ns": true, "tick": true, "DECLINE-FOREIGN": true}
+		"REQ-FOREIGN": true, "REQ-GATEWAY": true, "lease+1ns": true, "tick": true, "3ticks": true, "DECLINE-FOREIGN": true}
 	drSyms := map[string]bool{"DISCOVER": true, "REQ-SELECT": true, "RELEASE": true, "DECLINE": true,
 		"DECLINE-FOREIGN": true, "DECLINE-OFFERED": true, "DECLINE-FREE": true, "RELEASE-FOREIGN": true, "RELEASE-OFFERED": true,
 		"REQ-FOREIGN": true, "REQSEL-FOREIGN": true, "RENEW-FOREIGN": true, "CYCLE-DRR": true, "tick": true}
@@ -401,9 +473,12 @@ func (w *v4world) buildSyms() {
 	// list is visited, then give everything back
 	add("X:CYCLE-D", 2, func() bool { return w.cycle("X:CYCLE-D", false) })
 	add("X:CYCLE-DRR", 3, func() bool { return w.cycle("X:CYCLE-DRR", true) })
-	add("T:lease/2", 4, func() bool { return w.step("T:lease/2", v4Lease/2) })
-	add("T:lease+1ns", 3, func() bool { return w.step("T:lease+1ns", v4Lease+1) })
+	add("T:lease/2", 4, func() bool { return w.step("T:lease/2", w.lease/2) })
+	add("T:lease+1ns", 3, func() bool { return w.step("T:lease+1ns", w.lease+1) })
 	add("T:tick", 4, func() bool { return w.step("T:tick", cleanupGap) })
+	if w.lease > offerWindow { // several cleanup ticks during which leases stay valid
+		add("T:3ticks", 4, func() bool { return w.step("T:3ticks", threeTicks) })
+	}
 	if w.cfg.fine { // sub-minute steps: directed scenarios and random walks only
 		add("T:59s", 1, func() bool { return w.step("T:59s", 59*time.Second) })
 		add("T:1s", 1, func() bool { return w.step("T:1s", time.Second) })
@@ -424,7 +499,10 @@ func (w *v4world) exchange(c *v4client, mt dhcpv4.MessageType, reqIP, ciaddr net
 	c.xid++
 	mods := []dhcpv4.Modifier{
 		dhcpv4.WithMessageType(mt), dhcpv4.WithHwAddr(c.mac),
-		dhcpv4.WithTransactionID(dhcpv4.TransactionID{c.mac[5], byte(c.xid >> 16), byte(c.xid >> 8), byte(c.xid)}),
+		dhcpv4.WithTransactionID(dhcpv4.TransactionID{c.mac[len(c.mac)-1], byte(c.xid >> 16), byte(c.xid >> 8), byte(c.xid)}),
+	}
+	if len(c.mac) != 6 {
+		mods = append(mods, dhcpv4.WithHWType(hwTypeFor(len(c.mac))))
 	}
 	if reqIP != nil {
 		mods = append(mods, dhcpv4.WithOption(dhcpv4.OptRequestedIPAddress(reqIP)))
@@ -461,6 +539,13 @@ func (w *v4world) exchange(c *v4client, mt dhcpv4.MessageType, reqIP, ciaddr net
 	w.srv.VerifC02HandleDHCP(w.conn, peer, req)
 	pkts, _ := w.conn.take()
 	w.m.count("v4_msg_"+mt.String()+"_"+tr, 1)
+	if len(c.mac) != 6 {
+		w.m.count("v4_msg_non_ethernet_hwaddr", 1)
+		w.m.count(fmt.Sprintf("v4_msg_hwaddr_len_%d", len(c.mac)), 1)
+	}
+	if mt != dhcpv4.MessageTypeDiscover && mt != dhcpv4.MessageTypeInform {
+		c.rediscovered = time.Time{}
+	}
 	if len(pkts) == 0 {
 		w.m.count("v4_reply_none", 1)
 		return nil, tr
@@ -503,6 +588,10 @@ func (w *v4world) discover(c *v4client) bool {
 	if rep != nil {
 		if ip := yi(rep); ip != nil && rep.MessageType() == dhcpv4.MessageTypeOffer {
 			c.lastOffer = ip
+			if hv, ok := w.m.heldUnexpired(c.name, "", now); ok && hv == ip.String() {
+				c.rediscovered = now
+				w.m.count("v4_discover_by_lease_holder_offered_own_address", 1)
+			}
 			w.m.onOffer(c.name, "", ip.String(), "dhcp.Server.handleDiscover", now)
 		}
 	}
@@ -643,12 +732,43 @@ func (w *v4world) step(name string, d time.Duration) bool {
 	time.Sleep(d)
 	synctest.Wait() // the cleanup loop has handled every tick that fell into the step
 	now := time.Now()
-	if lt := w.lastTick(now); !lt.IsZero() {
-		w.m.sweep(lt, now) // bindings that had expired at the last tick may have been reclaimed
+	lt := w.lastTick(now)
+	if !lt.IsZero() {
+		w.m.sweep(lt, now) // bindings that had expired at the last tick may have been reclaimed, offers never followed up have lapsed
 	}
 	w.m.count("time_steps", 1)
+	w.observeHold(d, lt, now)
 	w.checkState("dhcp.Server.cleanupExpiredLeases")
 	return true
+}
+
+// observeHold counts (coverage only, no clause reads it) what a time step of length d ending at now let happen
+// while bindings stayed valid: cleanup ticks passed under an unexpired binding whose lease is longer than the
+// offer window, and lease holders whose DISCOVER (answered with their own address) was never followed by a
+// REQUEST / RELEASE / DECLINE and is now older than the offer window plus one cleanup tick.
+func (w *v4world) observeHold(d time.Duration, lastTick, now time.Time) {
+	if w.lease <= offerWindow || lastTick.IsZero() {
+		return
+	}
+	valid := false
+	for _, c := range w.names {
+		if _, ok := w.m.heldUnexpired(c.name, "", now); !ok {
+			continue
+		}
+		valid = true
+		if !c.rediscovered.IsZero() && c.rediscovered.Add(offerWindow).Before(lastTick) {
+			c.rediscovered = time.Time{}
+			w.m.count("v4_lease_holder_discover_never_requested_older_than_offer_window_lease_still_valid", 1)
+			if len(c.mac) != 6 {
+				w.m.count("v4_lease_holder_discover_never_requested_older_than_offer_window_non_ethernet", 1)
+			}
+		}
+	}
+	if valid {
+		if n := int(now.Sub(w.t0)/time.Minute) - int(now.Add(-d).Sub(w.t0)/time.Minute); n > 0 {
+			w.m.count("v4_cleanup_ticks_under_unexpired_lease_longer_than_offer_window", n)
+		}
+	}
 }
 
 // cycle: k fresh clients DISCOVER (and REQUEST what they are offered) until the server has nothing left to
@@ -726,15 +846,8 @@ func (w *v4world) finish() {
 // ---- lease table versus pool ---------------------------------------------
 
 func (w *v4world) macName(mac string) string {
-	for _, c := range w.clients {
-		if c.mac.String() == mac {
-			return c.name
-		}
-	}
-	if strings.HasPrefix(mac, "02:c0:02:01:") {
-		if b, err := hex.DecodeString(mac[12:14] + mac[15:17]); err == nil && len(mac) == 17 {
-			return "F" + strconv.Itoa(int(b[0])<<8|int(b[1]))
-		}
+	if c := w.names[mac]; c != nil {
+		return c.name
 	}
 	return mac
 }
